@@ -74,6 +74,11 @@ func (w *waitGroup[T]) Wait() {
 
 // PendingElements returns the currently pending elements.
 func (w *waitGroup[T]) PendingElements() ReadableSet[T] {
+	// the read-only side: the Clear method that every set has must not empty the pending elements behind the counter
+	if readOnly, ok := w.pendingElements.ReadOnly().(ReadableSet[T]); ok {
+		return readOnly
+	}
+
 	return w.pendingElements
 }
 
